@@ -29,7 +29,7 @@ pub fn run(prop: &str, tier: Tier, seed: u64) -> i32 {
   let which = tag_of(prop);
   let rule = match which {
     Tag::C10 => "proptest-generated op sequences (add_node/add_edge/re-add/remove_edge/remove_outgoing/remove_node incl. removed nodes and self edges) vs naive reference graph, all assertions after every op; non-trivial = sequence with an accepted back-insertion that changed the rank of >=3 nodes, or a rejected cycle of length >=3 after a removal; distinct by case hash",
-    Tag::C11 => "same sequences; all pair/adjacency/descendant/topo_cmp queries after every op vs reference; non-trivial = re-insertion of an existing edge that is not last in an adjacency list of >=2, or a removal that leaves the source with other edges; distinct by case hash",
+    Tag::C11 => "same sequences, which also contain generated single queries (any kind, any pair, or a repetition of a recent query) compared on the spot; the sweep of all pair/adjacency/descendant/topo_cmp queries runs after every op, or - in half of the cases - only after every k-th op / at the end, so that single queries meet whatever earlier queries and mutators left behind; plus exhaustive enumeration of mutator/reachability-query interleavings; non-trivial = re-insertion of an existing edge that is not last in an adjacency list of >=2, or a removal that leaves the source with other edges; distinct by case hash",
   };
   let mut report = Report::new(prop, tier, seed, "exploration", rule);
   let known = Known::load(prop);
@@ -54,6 +54,22 @@ pub fn run(prop: &str, tier: Tier, seed: u64) -> i32 {
       report.violation("ops", &serde_json::to_value(&case).unwrap(), &Failure::new(msg), &dag::pretty(&case));
       break;
     }
+  }
+  // C11: every interleaving of mutators and single reachability queries (nothing else queried in between).
+  if which == Tag::C11 && report.violations.is_empty() {
+    let qscopes: &[(u8, usize)] = match tier { Tier::Quick => &[(2, 3), (2, 4), (3, 3)], Tier::Thorough => &[(2, 3), (2, 4), (2, 5), (3, 3), (3, 4)] };
+    let mut qenum = 0u64;
+    for (init, len) in qscopes {
+      let (count, found) = dag::enumerate_with(*init, *len, which, 16, true);
+      qenum += count;
+      if let Some((case, msg)) = found {
+        report.violation("ops", &serde_json::to_value(&case).unwrap(), &Failure::new(msg), &dag::pretty(&case));
+        break;
+      }
+    }
+    enumerated += qenum;
+    report.extra.insert("exhaustive_sequences_with_single_queries".into(), json!(qenum));
+    report.extra.insert("exhaustive_scope_with_single_queries".into(), json!(format!("scopes {:?}: alphabet extended by one contains_transitive_edge query per ordered pair, no other query before the last operation", qscopes)));
   }
   report.stats.evaluations += enumerated;
   report.extra.insert("exhaustive_sequences".into(), json!(enumerated));
